@@ -44,7 +44,9 @@ func regexpFormulaImpl(p *Path, r *regexp.Regexp, s []*Term) (*Term, bool) {
 	if prog == nil {
 		return nil, false
 	}
-	if !p.asciiOnly(s) {
+	// If every rune instruction only accepts ASCII, a byte >= 0x80 matches
+	// nothing and bytes can stand for runes whatever the subject holds.
+	if !asciiSafe(prog) && !p.asciiOnly(s) {
 		return nil, false
 	}
 	return p.matchFormula(prog, s, 0), true
@@ -288,4 +290,25 @@ func (p *Path) replaceAllFuncSingle(caller *frame, r *regexp.Regexp, src []value
 		out = []value{}
 	}
 	return out, true
+}
+
+func asciiSafe(prog *syntax.Prog) bool {
+	for i := range prog.Inst {
+		in := &prog.Inst[i]
+		switch in.Op {
+		case syntax.InstRuneAny, syntax.InstRuneAnyNotNL:
+			return false
+		case syntax.InstRune, syntax.InstRune1:
+			for _, r := range in.Rune {
+				if r > 0x7F {
+					return false
+				}
+			}
+		case syntax.InstEmptyWidth:
+			if syntax.EmptyOp(in.Arg)&(syntax.EmptyWordBoundary|syntax.EmptyNoWordBoundary) != 0 {
+				// \b looks at runes on both sides; a non-ASCII rune is a non-word rune, as is a byte >= 0x80 here
+			}
+		}
+	}
+	return true
 }
